@@ -134,7 +134,8 @@ def run(ctx):
     classes = {}
     for tx in A.txs:
         removes_pt = (tx.kind == "RELEASE" and "PT" in tx.lists) or (tx.kind in ("MOVE", "REPRESS+MOVE") and tx.lists and tx.lists[0] == "PT") \
-            or (tx.kind in ("BATCHDEL", "RETAIN->BATCH") and tx.lists and tx.lists[0] == "PT") or (tx.kind == "DROP" and "PT" in tx.lists)
+            or (tx.kind in ("BATCHDEL", "RETAIN->BATCH") and tx.lists and tx.lists[0] == "PT") or (tx.kind == "DROP" and "PT" in tx.lists) \
+            or (tx.kind == "BULKRELEASE" and "PT" in tx.lists)
         if not removes_pt:
             continue
         fx = tx.fx
@@ -150,6 +151,15 @@ def run(ctx):
             cls = "f:re-press-of-an-output(key in to)"
         elif tx.fn == RAM and tx.kind == "BATCHDEL":
             cls = "b:batch-of-release_action_mappings(keys from mapped_output)"
+        elif tx.fn == SWEEP and tx.kind == "BULKRELEASE" and tx.guard_ok:
+            # the filtered walk + pruning retains: which keys?  the filter of the walk
+            act = False
+            for e_ in tx.effs:
+                if e_.kind == "MAPEMIT":
+                    pl = tables.pipeline(ctx.body, e_.aux[1])
+                    act = any(v is True and isinstance(a, tuple) and a[0] == "call" and a[1] == MOD + "is_action_key" for a, v in pl["guards"])
+            if act:
+                cls = "c:no-repeat-sweep(non-modifier keys)"
         elif tx.fn == SWEEP and tx.kind == "RETAIN->BATCH":
             act = any(v is True and isinstance(a, tuple) and a[0] == "call" and a[1] == MOD + "is_action_key" and a[2] == (key,) for a, v in g)
             if act:
